@@ -69,7 +69,7 @@ pub(crate) struct SCfg {
 
 #[derive(Clone, Copy)]
 pub(crate) struct STc { pub now: T, pub ttl: T, pub tti: T, pub va: T, pub la: [T; MAXN], pub lm: [T; MAXN] }
-pub(crate) const STCS: [STc; 8] = [
+pub(crate) const STCS: [STc; 9] = [
     STc { now: (0, 0), ttl: (0, 0), tti: (0, 0), va: (0, 0), la: [(0, 0); MAXN], lm: [(0, 0); MAXN] },
     // 1: everything live; watermark older than every entry
     STc { now: (100, 0), ttl: (50, 5), tti: (30, 0), va: (10, 0), la: [(80, 0), (85, 0), (90, 0), (0, 0)], lm: [(60, 0), (70, 0), (80, 0), (0, 0)] },
@@ -85,6 +85,8 @@ pub(crate) const STCS: [STc; 8] = [
     STc { now: (100, 0), ttl: (50, 0), tti: (40, 0), va: (10, 0), la: [(50, 0), (85, 0), (90, 0), (0, 0)], lm: [(40, 0), (70, 0), (80, 0), (0, 0)] },
     // 7: invalidate_all just called (watermark == now); every resident was written strictly before it
     STc { now: (100, 0), ttl: (50, 5), tti: (30, 0), va: (100, 0), la: [(98, 0), (99, 0), (99, 5), (0, 0)], lm: [(98, 0), (99, 0), (99, 5), (0, 0)] },
+    // 8: class 2 seen 1 ns EARLIER (key 0 one ns before its ttl deadline): used as the clock reading at which an iterator is created
+    STc { now: (99, 999_999_999), ttl: (50, 5), tti: (30, 0), va: (10, 0), la: [(80, 0), (85, 0), (90, 0), (0, 0)], lm: [(49, 999_999_995), (70, 0), (80, 0), (0, 0)] },
 ];
 
 /// ghost of the abstract state
@@ -1070,6 +1072,9 @@ pub(crate) fn add_pending(st: &SSt, k: u8) -> Ent {
         _ => unreachable!(),
     }
 }
+pub(crate) fn set_now(t: (u64, u32)) { unsafe { NOW = t; } }
+pub(crate) fn tc_now(tc: usize) -> (u64, u32) { STCS[tc].now }
+pub(crate) fn hidden_at(st: &SSt, i: usize) -> bool { st.g.hidden(i) }
 pub(crate) fn base_of(st: SSt) -> Bc { let SSt { b, g: _, ent, key } = st; std::mem::forget(ent); std::mem::forget(key); b }
 impl In {
     pub(crate) fn verif_read_len(&self) -> usize { self.read_op_ch.len() }
@@ -1077,6 +1082,7 @@ impl In {
     pub(crate) fn verif_sketch_state(&self) -> (bool, bool) {
         (self.frequency_sketch_enabled.load(Ordering::Acquire), sk::is_empty(&self.frequency_sketch.read().expect("lock poisoned")))
     }
+    pub(crate) fn verif_in_map(&self, k: u8) -> bool { self.cache.get(&k).is_some() }
     pub(crate) fn verif_recv_write(&self) -> Option<WriteOp<u8, Val>> { self.write_op_ch.try_recv().ok() }
 }
 
@@ -1195,6 +1201,22 @@ fn l_sync_round(ttl: bool, tti: bool) {
 sh!(l_sync_round_plain, l_sync_round(false, false));
 // not instantiated: no verdict in 40 min once evict_expired runs after an admission
 // sh!(l_sync_round_expiry, l_sync_round(true, true));
+
+/// Inner::sync with both queues EMPTY on a cache that is still over capacity (an earlier run hit its
+/// eviction batch limit, or a grown update was applied by the previous run): every maintenance run
+/// must go on evicting; "nothing queued" is not "nothing to do".
+fn l_sync_idle_over_capacity() {
+    let st = sbuild(&sc(2, Some(5), true, WT_A, false, false, false, 1));   // weights 3 + 5 = 8 > 5
+    let g = st.g;
+    let inner = &*st.b.inner;
+    inner.sync(MAX_SYNC_REPEATS_PUB);
+    assert!(inner.cache.get(&0u8).is_none(), "C04,C12: a maintenance run on a cache above max_capacity must evict from the LRU end even when no operation is queued");
+    assert!(inner.cache.get(&1u8).is_some(), "C12,C03: only as many as needed");
+    assert!(inner.entry_count.load() == 1 && inner.weighted_size.load() == g.ws - g.w[0] as u64, "C10,C04: counters after the eviction");
+    kani::cover!(true, "end reached");
+    std::mem::forget(st);
+}
+sh!(l_sync_idle_over_capacity_evicts, l_sync_idle_over_capacity());
 
 /// C09: maintenance over capacity when the only node left belongs to an entry that already left the
 /// map (invalidate queued its Remove, not yet applied): evict_lru_entries must give up after
@@ -1401,6 +1423,8 @@ sh!(l_burst_ins1_upd0_cap1_hot, l_burst(&sc(1, Some(1), false, W1, false, false,
 // weighted: the resident's update SHRINKS it (7 -> 3) while it is still counted with 7; the hot newcomer (1) is judged first
 // (the order [Ins(1), shrink(0)] is decided step-wise by l_upsert_admission_dirty_victim_*: the whole burst gave no verdict in 40 min)
 sh!(l_burst_shrink0_ins1_w_cap7_hot, l_burst(&sc(1, Some(7), true, WT_S, false, false, false, 1), 2, 1, &[Ins(0, 1), Ins(1, 0)]));
+// the admission scan meets the node of a resident that was invalidated AFTER the newcomer's insert (its Remove is queued behind)
+sh!(l_burst_ins1_inv0_cap1_hot, l_burst(&sc(1, Some(1), false, W1, false, false, false, 1), 2, 1, &[Ins(1, 0), Inv(0)]));
 sh!(l_burst_upd0_ins1_cap1_hot, l_burst(&sc(1, Some(1), false, W1, false, false, false, 1), 2, 1, &[Ins(0, 1), Ins(1, 0)]));
 
 // ================================================================================================
